@@ -36,8 +36,11 @@ static __thread um_t UM[2];
 static bool on_start(m_mod_t *m) { um_t *u = (um_t *)m_mod_userdata(m); u->started++; rec(100 + u->id); return true; }
 static void on_stop(m_mod_t *m) { um_t *u = (um_t *)m_mod_userdata(m); u->stopped++; rec(200 + u->id); }
 static int task_done[4];
+static int park_in_cb;          /* --foreign 3|4: the owner waits for the foreign thread INSIDE a callback of the module under attack */
+static void park_now(void);
 static void on_evt(m_mod_t *m, const m_queue_t *const evts) {
     um_t *u = (um_t *)m_mod_userdata(m);
+    if (park_in_cb && u->id == 0) { park_in_cb = 0; park_now(); }
     m_itr_foreach(evts, {
         m_evt_t *e = m_itr_get(m_itr);
         u->evts++;
@@ -109,6 +112,7 @@ static pthread_mutex_t hs_mx = PTHREAD_MUTEX_INITIALIZER; static pthread_cond_t 
 static int hs_stage; static m_mod_t *shared_mod, *shared_other;
 static void hs_set(int v) { pthread_mutex_lock(&hs_mx); hs_stage = v; pthread_cond_broadcast(&hs_cv); pthread_mutex_unlock(&hs_mx); }
 static void hs_wait(int v) { pthread_mutex_lock(&hs_mx); while (hs_stage < v) pthread_cond_wait(&hs_cv, &hs_mx); pthread_mutex_unlock(&hs_mx); }
+static void park_now(void) { hs_set(1); hs_wait(2); }
 static void owner_thread(void) {
     m_mod_hook_t hk = { on_start, NULL, on_evt, on_stop };
     UM[0] = (um_t){ 0, 0, 0, 0, NULL }; UM[1] = (um_t){ 1, 0, 0, 0, NULL };
@@ -119,8 +123,15 @@ static void owner_thread(void) {
     m_mod_ps_subscribe(UM[0].h, "top", 0, NULL);
     shared_mod = UM[0].h; shared_other = UM[1].h;
     ssize_t srcs = m_mod_src_len(UM[0].h, M_SRC_TYPE_END);
+    if (FOREIGN >= 3) {         /* the foreign calls arrive while the owner executes A's own event handler */
+        static const char PAYP = 'p'; park_in_cb = 1;
+        m_mod_ps_tell(UM[0].h, UM[0].h, &PAYP, 0);
+        m_ctx_dispatch();
+        if (park_in_cb) sch_fail("TC.setup", "TC.setup", "the parking message was not delivered");
+    } else {
     hs_set(1);                  /* handle published */
     hs_wait(2);                 /* foreign thread done */
+    }
     /* nothing may have changed */
     if (!m_mod_is(UM[0].h, M_MOD_RUNNING)) sch_fail("TC.effect", "TC.effect|state", "a foreign-thread call changed the module's state");
     if (m_mod_src_len(UM[0].h, M_SRC_TYPE_END) != srcs) sch_fail("TC.effect", "TC.effect|sources", "a foreign-thread call changed the module's sources");
@@ -165,7 +176,7 @@ static void foreign_thread(int with_ctx) {
 
 static void *thr_main(void *p) {
     me = (int)(intptr_t)p; mylog = &OBS[me]; mylog->n = 0; mylog->h = 0xcbf29ce484222325ull;
-    if (FOREIGN) { if (me == 0) owner_thread(); else foreign_thread(FOREIGN == 1); }
+    if (FOREIGN) { if (me == 0) owner_thread(); else foreign_thread(FOREIGN == 1 || FOREIGN == 3); }
     else program(me);
     return NULL;
 }
@@ -196,7 +207,7 @@ void hx_config(int argc, char **argv) {
     }
     if (NTHR > 4) NTHR = 4;
     if (FOREIGN) NTHR = 2;
-    snprintf(cfg, sizeof cfg, "threads=%d prog=%s foreign=%s", NTHR, PROG, FOREIGN == 0 ? "no" : FOREIGN == 1 ? "from-thread-with-other-context" : "from-thread-without-context");
+    snprintf(cfg, sizeof cfg, "threads=%d prog=%s foreign=%s", NTHR, PROG, FOREIGN == 0 ? "no" : FOREIGN == 1 ? "from-thread-with-other-context" : FOREIGN == 2 ? "from-thread-without-context" : FOREIGN == 3 ? "from-thread-with-other-context-while-owner-is-in-the-module's-callback" : "from-thread-without-context-while-owner-is-in-the-module's-callback");
     /* reference logs: every program run alone (scheduler inactive), in this very process before any exploration */
     if (!FOREIGN) for (int i = 0; i < NTHR; i++) { me = i; mylog = &SOLO[i]; mylog->n = 0; mylog->h = 0xcbf29ce484222325ull; program(i); }
 }
